@@ -187,17 +187,30 @@ impl Idle {
                                 data_rxwindow1_timeout::<R, N>(frame, rx_windows, mac, radio, ms)
                             }
                             _ => {
-                                // The frame was handed to the radio: its counter is spent.
-                                let _ = mac.rx2_complete();
-                                (State::Idle(self), Err(Error::UnexpectedRadioResponse.into()))
+                                // The frame was handed to the radio: its counter is spent. When
+                                // the counter space is exhausted it cannot advance: report that
+                                // instead of an error after which the counter would be reused.
+                                match mac.rx2_complete() {
+                                    mac::Response::SessionExpired => {
+                                        (State::Idle(self), Ok(Response::SessionExpired))
+                                    }
+                                    _ => (
+                                        State::Idle(self),
+                                        Err(Error::UnexpectedRadioResponse.into()),
+                                    ),
+                                }
                             }
                         }
                     }
                     Err(e) => {
                         // The radio may have started transmitting before it failed, so the
                         // counter of this frame must not be used again for another one.
-                        let _ = mac.rx2_complete();
-                        (State::Idle(self), Err(super::Error::Radio(e)))
+                        match mac.rx2_complete() {
+                            mac::Response::SessionExpired => {
+                                (State::Idle(self), Ok(Response::SessionExpired))
+                            }
+                            _ => (State::Idle(self), Err(super::Error::Radio(e))),
+                        }
                     }
                 }
             }
